@@ -201,11 +201,14 @@ class _LibrationDynamicsService(_DynamicsServiceBase):
         if options is None:
             options = self.eigendecomposition_options
             
-        cache_key = self.make_key(id(self.domain_obj), tuple(sorted(options.to_dict().items())))
+        config = self.eigendecomposition_config
+        cache_key = self.make_key(id(self.domain_obj), config, tuple(sorted(options.to_dict().items())))
 
         def _factory() -> StabilityPipeline:
-            self.generator.compute(self.domain_obj, options=options)
-            return self.generator
+            # one pipeline per key: a pipeline only holds the results of its last compute() call
+            pipeline = StabilityPipeline.with_default_engine(config=config, interface=_LibrationPointInterface())
+            pipeline.compute(self.domain_obj, options=options)
+            return pipeline
 
         return self.get_or_create(cache_key, _factory)
 
